@@ -32,7 +32,40 @@ where
     by_key.insert(x, 1u8);
     let mut by_val = std::collections::BTreeMap::new();
     by_val.insert("k".to_string(), x);
+    // positions that serde reads from its BUFFERED representation instead of from the JSON text: an internally tagged enum, an untagged
+    // enum, a flattened struct, an adjacently tagged enum whose content comes before its tag
+    #[derive(serde::Serialize, serde::Deserialize, PartialEq)]
+    #[serde(tag = "t")]
+    enum Internally<T> {
+        V { x: T },
+    }
+    #[derive(serde::Serialize, serde::Deserialize, PartialEq)]
+    #[serde(untagged)]
+    enum Untagged<T> {
+        V { x: T },
+    }
+    #[derive(serde::Serialize, serde::Deserialize, PartialEq)]
+    struct Inner<T> {
+        x: T,
+    }
+    #[derive(serde::Serialize, serde::Deserialize, PartialEq)]
+    struct Flat<T> {
+        k: u8,
+        #[serde(flatten)]
+        inner: Inner<T>,
+    }
+    #[derive(serde::Serialize, serde::Deserialize, PartialEq)]
+    #[serde(tag = "t", content = "c")]
+    enum Adjacent<T> {
+        V(T),
+    }
+    let content_first = serde_json::to_string(&x)
+        .ok()
+        .and_then(|js| serde_json::from_str::<Adjacent<T>>(&format!("{{\"c\":{js},\"t\":\"V\"}}")).ok())
+        .map(|back| back == Adjacent::V(x))
+        .unwrap_or(false);
     rt(&vec![x, x]) && rt(&(x, 1u8)) && rt(&Some(x)) && rt(&by_key) && rt(&by_val)
+        && rt(&Internally::V { x }) && rt(&Untagged::V { x }) && rt(&Flat { k: 1, inner: Inner { x } }) && rt(&Adjacent::V(x)) && content_first
 }
 
 pub fn run(job: &Value) -> Value {
